@@ -56,6 +56,13 @@ func newStringExtractor(position stringExtractorPosition, patternParts []string,
 	case len(targetWildcard) == 0:
 		return emptyExtractor, fmt.Errorf("patternParts[1] must not be empty")
 	case targetWildcard == "*":
+		// anything is allowed: the far boundary is required to know where it ends
+		if position == extractFromStart && len(rightBoundary) == 0 {
+			return emptyExtractor, fmt.Errorf("'*' must be followed by a right boundary")
+		}
+		if position == extractFromEnd && len(leftBoundary) == 0 {
+			return emptyExtractor, fmt.Errorf("'*' must be preceded by a left boundary")
+		}
 		validCharTable = nil
 	case len(targetWildcard) < 2 || targetWildcard[0] != '[' || targetWildcard[len(targetWildcard)-1] != ']':
 		return emptyExtractor, fmt.Errorf("patternParts[1] must be '*' or '[...]'")
@@ -272,7 +279,7 @@ func trimControlCharsAndSpaces(s string) string {
 		istart++
 	}
 	iend := len(s) - 1
-	for iend >= 0 {
+	for iend >= istart {
 		if s[iend] > ' ' {
 			break
 		}
